@@ -140,11 +140,11 @@ class TInd(ciw.Individual):
 
 
 def _queue_ctx(node, chosen=None):
-    """per priority class: [(id, waiting?, arrival ticks)] in list order."""
+    """per priority class: [(id, waiting?, arrival ticks, customer class index)] in list order."""
     out = []
     for q in node.individuals:
         out.append([(i.id_number, 1 if (((not i.server) and i.service_start_date is False) or i is chosen) else 0,
-                     tk(i.arrival_date)) for i in q])
+                     tk(i.arrival_date), cid(i.customer_class)) for i in q])
     return out
 
 
